@@ -321,6 +321,7 @@ pub fn gen_string(rng: &mut Rng, mask: &ValMask) -> String {
             5 => ';',
             6 | 7 => char::from_u32(gen_char(rng)).unwrap(),
             8 => *rng.pick(UNI_INITIALS),
+            9 => crate::text::LINE_LIKE[rng.usize_below(crate::text::LINE_LIKE.len())].chars().next().unwrap(),
             _ => rng.range(0x21, 0x7E) as u8 as char,
         };
         s.push(c);
